@@ -246,14 +246,19 @@ func applyLocal(db dbm.DB, kvs []*types.KeyValue) {
 
 // execChain executes the blocks one after another on top of the node's genesis block.  When connect is false the
 // blocks are only executed against the state store (side-chain style): nothing is written to the local db.
-func execChain(mock *testnode.Chain33Mock, blocks [][]string, connect bool) []BlockDigest {
+// side (warm executions only): before block i is executed, side[i%len] is executed and committed to the state store on
+// the same parent, like a miner's own candidate block that then loses against a received block of the same height.
+func execChain(mock *testnode.Chain33Mock, blocks [][]string, connect bool, side [][]string) []BlockDigest {
 	client := mock.GetClient()
 	cfg := client.GetConfig()
 	parent := mock.GetBlock(0)
 	var out []BlockDigest
-	for _, hexes := range blocks {
+	for i, hexes := range blocks {
 		var d BlockDigest
 		newBlock := func() *types.Block { return util.CreateNewBlock(cfg, parent, decodeTxs(hexes)) }
+		if len(side) > 0 {
+			_, _, _ = util.ExecBlock(client, parent.StateHash, util.CreateNewBlock(cfg, parent, decodeTxs(side[i%len(side)])), false, true, false)
+		}
 
 		// (1) the executor's reply to EventExecTxList
 		blk := newBlock()
@@ -379,7 +384,7 @@ func unrelatedWork(c *CaseFile) {
 	v := Variant{Stat: !c.Cfg.Stat, AddrFee: !c.Cfg.AddrFee, Free: c.Cfg.Free}
 	mock := newNode(v)
 	defer mock.Close()
-	ds := execChain(mock, c.Warm, true)
+	ds := execChain(mock, c.Warm, true, nil)
 	root, _ := hex.DecodeString(ds[len(ds)-1].Root)
 	if len(root) > 0 {
 		mock.GetAccount(root, mock.GetGenesisAddress())
@@ -408,11 +413,15 @@ func Run(c *CaseFile, warm bool) (res *Result, err error) {
 	defer mock.Close()
 	if warm {
 		// side-chain executions at the same parent: fills the state store and its caches with unrelated nodes
-		execChain(mock, c.Warm, false)
+		execChain(mock, c.Warm, false, nil)
 	}
 	g := mock.GetBlock(0)
 	res = &Result{Genesis: hex.EncodeToString(g.Hash(mock.GetClient().GetConfig())) + "/" + hex.EncodeToString(g.StateHash)}
-	res.Blocks = execChain(mock, c.Blocks, true)
+	var side [][]string
+	if warm {
+		side = c.Warm
+	}
+	res.Blocks = execChain(mock, c.Blocks, true, side)
 	return res, nil
 }
 
